@@ -83,8 +83,17 @@ def targets(doc):
                      ("Paragraph", "descendant::text:p"), ("Header", "descendant::text:h"), ("Frame", "descendant::draw:frame"),
                      ("List", "descendant::text:list"), ("TOC", "descendant::text:table-of-content"), ("Span", "descendant::text:span"),
                      ("Note", "descendant::text:note"), ("Section", "descendant::text:section"), ("DrawPage", "descendant::draw:page")):
-        if body.get_elements(q):
+        found = body.get_elements(q)
+        if found:
             out.append((label, lambda q=q: doc.body.get_elements(q)[0]))
+            # ... and the richest element of the kind (most descendants: notes, frames, spans inside), and one more
+            sizes = [len(e.get_elements("descendant::*")) for e in found[:400]]
+            k = max(range(len(sizes)), key=lambda i: sizes[i])
+            if k != 0:
+                out.append((label, lambda q=q, k=k: doc.body.get_elements(q)[k]))
+            j = (len(found) * 2) // 3
+            if j not in (0, k):
+                out.append((label, lambda q=q, j=j: doc.body.get_elements(q)[j]))
     return out
 
 
@@ -137,6 +146,9 @@ CURATED = [
     ("Table", "traverse_columns(every start)", lambda t: [list(t.traverse_columns(start=s, end=s + 2)) for s in range(min(t.width, 12) + 1)]),
     ("Table", "get_cells(every area)", lambda t: [t.get_cells((s, s, s + 2, s + 2)) for s in range(min(t.width, t.height, 8) + 1)]),
     ("Table", "get_values(every area)", lambda t: [t.get_values((s, s, s + 2, s + 2)) for s in range(min(t.width, t.height, 8) + 1)]),
+    ("Body", "get_named_ranges()", lambda b: b.get_named_ranges()),
+    ("Body", "get_named_range(nr)", lambda b: b.get_named_range("nr")),
+    ("Body", "named range values", lambda b: [r.get_values() for r in b.get_named_ranges()]),
     ("Body", "search", lambda b: b.search("e")),
     ("Body", "search_all", lambda b: b.search_all("a")),
     ("Body", "search_first", lambda b: b.search_first("a")),
@@ -212,6 +224,31 @@ def catalogue(label, obj):
     return out
 
 
+def generated_sheet(rng):
+    """A spreadsheet as another producer may write it, PARSED FROM BYTES: outlined rows, header rows, and named ranges whose
+    base cell is not the first cell of the range (the name was defined with the cursor elsewhere)."""
+    from odfdo import Document, Element
+
+    from . import tablelib as tl
+    from .table_driver import rand_state
+
+    doc = Document("spreadsheet")
+    body = doc.body
+    body.clear()
+    for i in range(2):
+        st = rand_state(rng, 5, 5)
+        body.append(Element.from_tag(tl.table_xml(st, "rand", rng, name=f"S{i}")))
+    body.append(Element.from_tag(
+        '<table:named-expressions>'
+        '<table:named-range table:name="nr" table:base-cell-address="$S0.$B$2" table:cell-range-address="$S0.$A$1:.$C$3"/>'
+        '<table:named-range table:name="nr2" table:base-cell-address="$S1.$C$1" table:cell-range-address="$S1.$B$2"/>'
+        '</table:named-expressions>'))
+    buf = io.BytesIO()
+    doc.save(buf)
+    buf.seek(0)
+    return Document(buf)
+
+
 def history(args) -> list:
     seed, src, max_calls = args
     from odfdo import Document
@@ -220,6 +257,8 @@ def history(args) -> list:
     ids = Ids()
     if src == "generated":
         doc = generated_document(rng)
+    elif src == "generated-sheet":
+        doc = generated_sheet(rng)
     elif src in TEMPLATES:
         doc = Document(src)
     else:
@@ -268,7 +307,7 @@ def history(args) -> list:
 
 def generate(ndocs: int, seed: int, max_calls: int = 60, procs=None, all_samples: bool = False) -> list:
     rng = random.Random(seed)
-    srcs = ["generated"] + list(TEMPLATES) + [str(p) for p in sample_files()]
+    srcs = ["generated", "generated-sheet"] + list(TEMPLATES) + [str(p) for p in sample_files()]
     if not all_samples:
         rng.shuffle(srcs)
         srcs = srcs[:ndocs]
